@@ -108,8 +108,10 @@ def cls_prime_continuation(base_text, var_name, var_text):
 
 KNOWN_CLASSES = {"prime-continuation-blank-line": cls_prime_continuation}
 
-# Hand-written pairs (base, variant) for surface differences the generators deliberately do NOT produce, because the
-# real parser is known to treat them differently.  "judged": by the text of C14 the pair must compile alike, so a
+# Hand-written pairs (base, variant): minimal witnesses of surface differences that were (or are) treated differently
+# by the real parser.  The three classes fixed by /repo commit 3fe15cc (prime-call continuation, index brackets, type
+# brackets) are listed `fixed` in known_findings.jsonl, so a recurrence is a FAILURE; the generators now produce these
+# forms too (Style features "brk" and "cont").  "judged": by the text of C14 the pair must compile alike, so a
 # disagreement is a failure unless the class is an open known finding.  "unjudged": whether the statement covers the
 # pair is a matter of reading; the outcome is only recorded in the evidence.
 PROBES = {
@@ -120,6 +122,12 @@ PROBES = {
         "E :: enum\n    A (int, int)\nend\nstart :: fn do\n    t: (int, int) = (1, 2)\n    l: [int] = [1]\nend\n",
         "E :: enum\n    A (int,\n       int)\nend\nstart :: fn do\n    t: (int,\n        int) = (1, 2)\n"
         "    l: [\n        int\n    ] = [1]\nend\n"),
+    "prime-continuation-blank-line": ("judged",
+        "f :: fn a, b, c do end\nstart :: fn do\n    f' 1, 2, 3\nend\n",
+        "f :: fn a, b, c do end\nstart :: fn do\n    f' 1\n\n    // note\n     , 2,\n\n  // more\n\n   3\nend\n"),
+    "linebreak-in-generic-brackets": ("judged",
+        "Q :: blob(*T, *U) { v: *T }\nE :: enum(*T) A (*T, int) end\nstart :: fn do\nend\n",
+        "Q :: blob(\n*T,\n *U\n) { v: *T }\nE :: enum(\n*T\n) A (\n*T,\n int\n) end\nstart :: fn do\nend\n"),
     "arrow-call-as-operand": ("unjudged",
         "f :: fn a: int, b: int -> int do\n    ret a\nend\nstart :: fn do\n    x := f(1, 2) + 1\nend\n",
         "f :: fn a: int, b: int -> int do\n    ret a\nend\nstart :: fn do\n    x := 1 -> f(2) + 1\nend\n"),
@@ -305,7 +313,9 @@ def tie(ctx):
             "distinct_nontrivial": len(nontrivial),
             "rule": "the statement / outer-statement parser started at every non-blank line of every surface variant "
                     "(canonical, prime, arrow, implicit ret, loop do, redundant parentheses, comments, blank lines, "
-                    "indentation, tabs, CRLF, line breaks inside brackets, mixed) of generated well-typed programs and "
+                    "indentation, tabs, CRLF, line breaks inside call/list/tuple/blob/index/type/enum-payload/"
+                    "type-variable brackets, prime-call continuation lines with blank and comment-only lines "
+                    "before and after the comma, mixed) of generated well-typed programs and "
                     "of the layout variants of /repo/tests/**/*.sy; real sylt_parser::statement vs the extracted model, "
                     "whole output line; non-trivial = accepted with at least four nodes; distinct by (mode, source)",
             "samples": [{"mode": m, "source": s[:200]} for (m, s) in sorted(nontrivial)[:3]], "distribution": dist}
